@@ -48,6 +48,7 @@ fn main() {
             }
             engine::install_quiet_panic_hook();
             let c = ctx(id, tier);
+            engine::start_global_watchdog(&c.prop, &c.root);
             let code = props::run(&c);
             std::process::exit(code);
         }
@@ -57,6 +58,7 @@ fn main() {
             }
             engine::install_quiet_panic_hook();
             let c = ctx(&args[2], Tier::Quick);
+            engine::start_global_watchdog(&c.prop, &c.root);
             let code = props::replay(&c, &args[3]);
             std::process::exit(code);
         }
